@@ -22,6 +22,28 @@ CHECKS = {
             'unknown sub-item types, several syntaxes/PDVs) are decoded by the library and compared.',
             'Trusts vf/refpdu.py (about 300 lines transcribed from PS3.8 9.3 / PS3.7 Annex D, with a '
             'self-test); AE titles compared modulo padding.', 'refpdu', 'DESIGN.md#C02'),
+    'C06': (True, 'exploration',
+            'exhaustive (max PDU length x boundary data length) grid + Hypothesis; fragment-stream invariants and byte-exact concatenation oracle',
+            'Every maximum PDU length 7..70 (thorough 7..300) x every data length within +-2 of a multiple of the '
+            'fragment size, 2^k boundaries up to 2^32-1, all 23 classes, three data sources, both encode() and '
+            'Association.send: size bound, flags, order, context id, non-emptiness and byte-exact content.',
+            'The command-set bytes are compared with dsutils.encode(command_set) (their well-formedness is C08) '
+            'and re-read by the independent reader vf/refcmd.py.', 'refcmd', 'DESIGN.md#C06'),
+    'C07': (True, 'exploration',
+            'exhaustive PDV-grouping enumeration (all 2^(n-1) compositions for short lists) + Hypothesis; reference-encoded input',
+            'Reference-encoded (and library-encoded) messages of all 23 command fields are delivered in every '
+            'composition of their fragment list into PDUs (lists up to 9/12 fragments), sampled groupings for '
+            'long lists, in-memory / temp-file / directory reception, genuine data sets in 3 transfer syntaxes; '
+            'completion must flip exactly at the last required fragment and content must be byte-identical.',
+            'Command sets and fragments come from vf/refcmd.py / vf/dimsegen.py, not from the library; '
+            'fragments of a single message per sequence.', 'refcmd', 'DESIGN.md#C07'),
+    'C08': (True, 'exploration',
+            'Hypothesis histories of repeated sends per message class; independent implicit-VR-LE reader as oracle',
+            'For each of the 23 classes, generated histories of 1-4 sends of the same object (fields changed, '
+            'data set attached/removed, decoded-origin objects) go through the real Association.send; each '
+            'command set is parsed by an independent reader: group length, ascending tags, even lengths, '
+            'command field code, data-set-type flag versus data fragments actually sent.',
+            'Trusts vf/refcmd.py (command dictionary from PS3.7 Annex E).', 'refcmd', 'DESIGN.md#C08'),
     'C18': (True, 'exploration',
             'exhaustive enumeration against an independent status table + metamorphic precedence test',
             'All 65536 codes x 24 command choices are constructed and compared with a table '
@@ -85,6 +107,8 @@ def main():
 ENGINES = [
     {'name': 'refpdu', 'path': 'vf/refpdu.py', 'serves_properties': ['C02', 'C03', 'C04', 'C05', 'C09', 'C10', 'C11', 'C12', 'C13', 'C14'],
      'kind_free_text': 'independent strict PDU reference encoder/parser (PS3.8 9.3, PS3.7 Annex D)'},
+    {'name': 'refcmd', 'path': 'vf/refcmd.py', 'serves_properties': ['C06', 'C07', 'C08', 'C16', 'C17', 'C19'],
+     'kind_free_text': 'independent implicit-VR-LE command-set reader/writer and PS3.7 message table; vf/dimsegen.py builds messages and reference fragments'},
     {'name': 'pdugen', 'path': 'vf/pdugen.py', 'serves_properties': ['C01', 'C02', 'C04', 'C05', 'C12'],
      'kind_free_text': 'Hypothesis strategies for plain-data PDU specs; spec <-> library object bridge'},
     {'name': 'runner', 'path': 'vf/common.py', 'serves_properties': [],
